@@ -17,7 +17,19 @@ const (
 	flPlain  flavor = iota // SingleFetch, reads values with ObjectVariables
 	flEntity               // RequiresEntityFetch on the object "e"
 	flBatch                // RequiresEntityBatchFetch on the list "l"
+	// branch kind (type-conditioned branches of an abstract list, see randomBranch)
+	flBrProvider // batch entity fetch on the items of type Type of the list "l": delivers p<id> and (DS == 1) their relation object "o"; reads p<d> of every provider d it depends on
+	flBrOwner    // batch entity fetch on "l.@.o" below the items of type Type: delivers o.name (all owner fetches are the same request)
+	flBrReader   // batch entity fetch on "l.@.o" (below the items of type Type, or of every type when Type is empty): reads o.name
 )
+
+// brItem: one item of the abstract list "l" of a branch plan.
+type brItem struct {
+	Type   string // concrete type of the item
+	ID     string
+	Owner  string // id of the relation object o
+	Native bool   // the root fetch delivers o itself; otherwise the provider fetch of Type does
+}
 
 type failMode int
 
@@ -92,7 +104,8 @@ type fetchSpec struct {
 	Parent int  // nested kind: -1 = root level, else id of the fetch providing the object this fetch hangs under
 	MergeM bool // nested kind: result merged into the item under MergePath ["m<id>"]
 	Fail   failMode
-	Root   bool // entity kind: plain root fetch providing e / l
+	Root   bool   // entity / branch kind: plain root fetch providing e / l
+	Type   string // branch kind: type condition of the fetch ("" = none)
 }
 
 type planSpec struct {
@@ -100,7 +113,43 @@ type planSpec struct {
 	Fetches  []fetchSpec
 	Info     infoMode
 	InfoSalt uint64
+	Items    []brItem // branch kind: the items of the list "l"
 	byID     map[int]*fetchSpec
+}
+
+// dupDepSetsDiffer: the plan has duplicates whose declared dependency sets differ (compared up to
+// duplicate classes): the survivor of the de-duplication has to take over the dependencies of
+// the removed copies.
+func (p *planSpec) dupDepSetsDiffer() bool {
+	sets := map[int]string{}
+	for _, f := range p.Fetches {
+		c := p.class(f.ID)
+		var d []int
+		for _, x := range f.Deps {
+			d = append(d, p.class(x))
+		}
+		d = uniqInts(d)
+		sort.Ints(d)
+		k := fmt.Sprint(d)
+		if prev, ok := sets[c]; ok && prev != k {
+			return true
+		}
+		sets[c] = k
+	}
+	return false
+}
+
+// standsFor: the planned fetches the request of fetch id stands for when the copies of its
+// duplicate class that are absent from the tree were merged into it.
+func (p *planSpec) classMembers(id int) []int {
+	c := p.class(id)
+	var out []int
+	for _, f := range p.Fetches {
+		if p.class(f.ID) == c {
+			out = append(out, f.ID)
+		}
+	}
+	return out
 }
 
 // withInfo: the same plan (shared, read-only fetch list) under another FetchInfo mode.
@@ -305,6 +354,16 @@ func (p *planSpec) String() string {
 			fmt.Fprintf(&b, "E@sg%d", f.DS)
 		case flBatch:
 			fmt.Fprintf(&b, "B@sg%d", f.DS)
+		case flBrProvider:
+			if f.DS == 1 {
+				fmt.Fprintf(&b, "provider(o of %s)", f.Type)
+			} else {
+				fmt.Fprintf(&b, "provider(p of %s)", f.Type)
+			}
+		case flBrOwner:
+			fmt.Fprintf(&b, "owner@l.[%s]o", f.Type)
+		case flBrReader:
+			fmt.Fprintf(&b, "reader@l.[%s]o", f.Type)
 		}
 		if f.DupOf >= 0 {
 			fmt.Fprintf(&b, "dup(%d)", f.DupOf)
@@ -320,6 +379,19 @@ func (p *planSpec) String() string {
 		}
 	}
 	b.WriteString("]")
+	if len(p.Items) > 0 {
+		b.WriteString(" l=[")
+		for i, it := range p.Items {
+			if i > 0 {
+				b.WriteString(" ")
+			}
+			b.WriteString(it.Type)
+			if it.Native {
+				b.WriteString("+o")
+			}
+		}
+		b.WriteString("]")
+	}
 	switch p.Info {
 	case infoNone:
 		b.WriteString(" fetchinfo=none")
@@ -335,9 +407,12 @@ func (p *planSpec) canon() string {
 	for _, f := range p.Fetches {
 		d := append([]int(nil), f.Deps...)
 		sort.Ints(d)
-		parts = append(parts, fmt.Sprintf("%d:%v:%d:%d:%d:%d:%v:%d", f.ID, d, f.Flavor, f.DS, f.DupOf, f.Parent, f.MergeM, f.Fail))
+		parts = append(parts, fmt.Sprintf("%d:%v:%d:%d:%d:%d:%v:%d%s", f.ID, d, f.Flavor, f.DS, f.DupOf, f.Parent, f.MergeM, f.Fail, f.Type))
 	}
 	sort.Strings(parts)
+	if len(p.Items) > 0 {
+		parts = append(parts, fmt.Sprint(p.Items))
+	}
 	info := ""
 	if p.Info != infoAll {
 		info = fmt.Sprintf("|info=%s%v", p.Info, p.withoutInfo())
@@ -1091,4 +1166,119 @@ func (p *planSpec) primaryRoot() int {
 		return roots[0]
 	}
 	return -1
+}
+
+
+// randomBranch: the plan of an abstract list whose type-conditioned branches select the same
+// relation:  l { ... on A { o { name } } ... on B { o { name } } [... on C { o { name } }] }.
+// The root fetch delivers the items and, for the "native" types, their relation object o; for
+// every other type a provider fetch (batch entity fetch on the items of that type) delivers o.
+// Per type one owner fetch loads o.name below that branch; all owner fetches are the SAME request
+// (same input, variables, path up to type conditions) but depend on different providers, so the
+// de-duplication keeps one of them for all branches and it has to wait for the providers of all.
+// 0..3 reader fetches read o.name (below one branch, depending on that branch's owner fetch, or
+// below all, depending on all of them). Ids and raw order are random.
+func randomBranch(rng *rand.Rand) *planSpec {
+	types := []string{"A", "B", "C"}[:2+rng.IntN(2)]
+	native := map[string]bool{}
+	for _, t := range types[:len(types)-1] {
+		native[t] = rng.IntN(2) == 0
+	}
+	rng.Shuffle(len(types), func(a, b int) { types[a], types[b] = types[b], types[a] })
+	p := &planSpec{Kind: "branch"}
+	for _, t := range types {
+		for i, n := 0, 1+rng.IntN(2); i < n; i++ {
+			id := fmt.Sprintf("%s%d", strings.ToLower(t), i)
+			p.Items = append(p.Items, brItem{Type: t, ID: id, Owner: "u-" + id, Native: native[t]})
+		}
+	}
+	rng.Shuffle(len(p.Items), func(a, b int) { p.Items[a], p.Items[b] = p.Items[b], p.Items[a] })
+	type node struct {
+		f    fetchSpec
+		deps []int // node indexes
+		dup  int
+	}
+	var nodes []node
+	add := func(f fetchSpec, dup int, deps ...int) int {
+		nodes = append(nodes, node{f: f, dup: dup, deps: append([]int(nil), deps...)})
+		return len(nodes) - 1
+	}
+	root := add(fetchSpec{Root: true}, -1)
+	owners := map[string]int{}
+	firstOwner := -1
+	var ownerNodes []int
+	for _, t := range types {
+		deps := []int{root}
+		if !native[t] {
+			pre := []int{root}
+			if rng.IntN(4) == 0 {
+				// the provider itself waits for one more fetch (a longer chain in front of the owner fetch)
+				pre = append(pre, add(fetchSpec{Flavor: flBrProvider, Type: t}, -1, root))
+			}
+			deps = append(deps, add(fetchSpec{Flavor: flBrProvider, Type: t, DS: 1}, -1, pre...))
+		}
+		if rng.IntN(2) == 0 {
+			deps[0], deps[len(deps)-1] = deps[len(deps)-1], deps[0]
+		}
+		o := add(fetchSpec{Flavor: flBrOwner, Type: t}, firstOwner, deps...)
+		if firstOwner < 0 {
+			firstOwner = o
+		}
+		owners[t] = o
+		ownerNodes = append(ownerNodes, o)
+	}
+	for i, n := 0, rng.IntN(4); i < n; i++ {
+		if rng.IntN(2) == 0 {
+			t := types[rng.IntN(len(types))]
+			add(fetchSpec{Flavor: flBrReader, Type: t}, -1, owners[t])
+		} else {
+			d := append([]int(nil), ownerNodes...)
+			rng.Shuffle(len(d), func(a, b int) { d[a], d[b] = d[b], d[a] })
+			add(fetchSpec{Flavor: flBrReader}, -1, d...)
+		}
+	}
+	ids := randomIDs(rng, len(nodes))
+	order := rng.Perm(len(nodes))
+	if rng.IntN(3) == 0 {
+		sort.Ints(order) // planner-like raw order
+	}
+	for _, t := range order {
+		f := nodes[t].f
+		f.ID, f.DupOf, f.Parent = ids[t], -1, -1
+		if nodes[t].dup >= 0 {
+			f.DupOf = ids[nodes[t].dup]
+		}
+		for _, d := range nodes[t].deps {
+			f.Deps = append(f.Deps, ids[d])
+		}
+		p.Fetches = append(p.Fetches, f)
+	}
+	p.index()
+	return p
+}
+
+// brCovered: the items a branch-kind request of fetch f covers. merged: the copies of f's
+// duplicate class were merged into one request (de-duplication), which then serves all their types.
+func (p *planSpec) brCovered(f *fetchSpec, merged bool) []brItem {
+	types := map[string]bool{}
+	all := false
+	add := func(g *fetchSpec) {
+		if g.Type == "" {
+			all = true
+		}
+		types[g.Type] = true
+	}
+	add(f)
+	if merged && f.Flavor == flBrOwner {
+		for _, id := range p.classMembers(f.ID) {
+			add(p.get(id))
+		}
+	}
+	var out []brItem
+	for _, it := range p.Items {
+		if all || types[it.Type] {
+			out = append(out, it)
+		}
+	}
+	return out
 }
